@@ -8,6 +8,7 @@
 
 #include <atomic>
 #include <thread>
+#include <unistd.h>
 
 namespace {
 using namespace vf;
@@ -322,6 +323,70 @@ void racy_control()
     fprintf(stderr, "CONTROL-FINISHED-WITHOUT-REPORT %f\n", double(v.at(1ul, 1ul)[0]));
 }
 
+// Cold start: the very first index computations of the process happen concurrently (an empty field built from a
+// parameter pack and filled by disjoint writers). Lazily initialised shared state inside an index function would be
+// raced on here and nowhere else, because every other workload warms the code up sequentially first.
+template <Lay L, size_t N>
+void cold_start()
+{
+    using IV = cv::vector_d<std::size_t, N>;
+    using A = cb::array<cv::vector_d<float, 2>>;
+    using S = layout_t<L, IV, A>;
+    if (L == Lay::morton_bmi2 && !have_bmi2()) {
+        return;
+    }
+    typename S::configuration_t e;
+    uint64_t cells = 1, side = 1;
+    for (size_t k = 0; k < N; ++k) {
+        e[k] = 5 + k;
+        cells *= e[k];
+    }
+    while (side < 5 + N - 1) {
+        side *= 2;
+    }
+    uint64_t len = cells;
+    if (L != Lay::strided) {
+        len = 1;
+        for (size_t k = 0; k < N; ++k) {
+            len *= side;
+        }
+    }
+    covfie::field<S> f(pack(e, typename A::owning_data_t(len)));
+    typename covfie::field<S>::view_t v(f);
+    const unsigned T = 8;
+    std::atomic<unsigned> go{0};
+    std::vector<std::thread> th;
+    auto coord_of = [&](uint64_t r) {
+        typename covfie::field<S>::coordinate_t x;
+        for (size_t k = N; k-- > 0;) {
+            x[k] = r % e[k];
+            r /= e[k];
+        }
+        return x;
+    };
+    for (unsigned t = 0; t < T; ++t) {
+        th.emplace_back([&, t] {
+            go.fetch_add(1);
+            while (go.load() < T) {
+            }
+            for (uint64_t r = t; r < cells; r += T) {
+                v.at(coord_of(r))[0] = float(r);
+                v.at(coord_of(r))[1] = -float(r);
+            }
+        });
+    }
+    for (auto & x : th) {
+        x.join();
+    }
+    for (uint64_t r = 0; r < cells; ++r) {
+        if (v.at(coord_of(r))[0] != float(r) || v.at(coord_of(r))[1] != -float(r)) {
+            fprintf(stderr, "COLD-START-VALUE-MISMATCH at cell %llu\n", (unsigned long long)r);
+            fflush(nullptr);
+            _exit(1);
+        }
+    }
+}
+
 template <Lay L, size_t N>
 void reg_layout()
 {
@@ -334,6 +399,14 @@ void reg_layout()
 
 void register_all()
 {
+    if (const char * k = getenv("VERIF_TSAN_COLD")) {
+        static const std::vector<std::pair<std::string, void (*)()>> colds{
+            {"strided/N=3", cold_start<Lay::strided, 3>}, {"morton_bmi2/N=2", cold_start<Lay::morton_bmi2, 2>}, {"morton_portable/N=2", cold_start<Lay::morton_port, 2>},
+            {"morton_portable/N=3", cold_start<Lay::morton_port, 3>}, {"morton_bmi2/N=4", cold_start<Lay::morton_bmi2, 4>}, {"hilbert/N=2", cold_start<Lay::hilbert, 2>}};
+        size_t i = size_t(atoi(k)) % colds.size();
+        add_inst("cold/" + colds[i].first, colds[i].second, [](const json &) { return std::nullopt; });
+        return;
+    }
     if (getenv("VERIF_TSAN_CONTROL")) {
         add_inst("control", racy_control, [](const json &) { return std::nullopt; });
         return;
